@@ -283,7 +283,7 @@ def run(ctx):
     # fills of real runs: futures accounts, thin bars (orders filled in several parts by the volume cap), close-today orders
     import tstream
     tstream.stream(ctx, ctx.n(25, 800), None, [fills_monitor], acct_types=("FUTURE",),
-                   market_opts=lambda k: {"with_future": True, "n_stocks": 0, "opts": {"p_expire": 0.3}}, cfg_opts=lambda k: {"no_signal": True, "force_volume_limit": True})
+                   market_opts=lambda k: {"with_future": True, "n_stocks": 0, "opts": {"p_expire": 0.3}}, cfg_opts=lambda k: {"no_signal": True, "force_volume_limit": True, "fut_plan": "two_closes" if k % 2 else None})      # odd runs: two closes created before either fills
 
 
 def replay(ctx, data):
